@@ -29,6 +29,8 @@ type Engine struct {
 	loadErrs    []string
 	usedWf      bool
 	typeInvs    map[string][]*typeInvClause
+	globalInit  map[*types.Var]ast.Expr
+	globalInitPkg map[*types.Var]*packages.Package
 	usedTypeInv map[string]bool
 }
 
@@ -96,6 +98,22 @@ func loadEngine(repo string, patterns []string) (*Engine, error) {
 		}
 		for _, f := range p.Syntax {
 			for _, d := range f.Decls {
+				if gd, ok := d.(*ast.GenDecl); ok && gd.Tok == token.VAR {
+					for _, sp := range gd.Specs {
+						if vs, ok := sp.(*ast.ValueSpec); ok && len(vs.Values) == len(vs.Names) {
+							for i, nm := range vs.Names {
+								if v, ok := p.TypesInfo.Defs[nm].(*types.Var); ok {
+									if eng.globalInit == nil {
+										eng.globalInit = map[*types.Var]ast.Expr{}
+										eng.globalInitPkg = map[*types.Var]*packages.Package{}
+									}
+									eng.globalInit[v] = vs.Values[i]
+									eng.globalInitPkg[v] = p
+								}
+							}
+						}
+					}
+				}
 				fd, ok := d.(*ast.FuncDecl)
 				if !ok {
 					continue
@@ -567,6 +585,11 @@ func (eng *Engine) verifyFuncCase(ct *Contract, res *FuncResult, caseIdx int) {
 					vals = append(vals, out.env[r])
 				}
 				f.rets = append(f.rets, &RetState{s: out, vals: vals})
+			}
+		}
+		if os.Getenv("GOVC_TRACE") != "" {
+			for ri, r := range f.rets {
+				fmt.Fprintf(os.Stderr, "ret%d logBad=%v log=%q\n", ri+1, r.s.logBad, r.s.log)
 			}
 		}
 		// ensures at every return
